@@ -79,6 +79,15 @@ type prefixedConn struct {
 	off    int
 }
 
+// CloseWrite passes the relay's write-shutdown through to the wrapped connection
+// (embedding the net.Conn interface does not promote CloseWrite).
+func (c *prefixedConn) CloseWrite() error {
+	if wc, ok := c.Conn.(WriteCloser); ok {
+		return wc.CloseWrite()
+	}
+	return nil
+}
+
 func (c *prefixedConn) TakeRelaySegments() [][]byte {
 	prefix := c.TakeRelayPrefix()
 	if len(prefix) == 0 {
